@@ -30,12 +30,18 @@ class ListCell:
     elem: Any
     n: Any
     arr: Any
+    setview: Any = None    # see SSeq.setview; dropped by every mutation (mutations build a new cell without it)
 
 
 @dataclass(frozen=True)
 class SetCell:
     elem: Any
     mem: Any
+
+
+class Hyps(list):
+    """hypotheses of a VC: the first `nfacts` are type invariants / ghost enumerations, the rest the path condition"""
+    nfacts = 0
 
 
 class St:
@@ -76,7 +82,9 @@ class St:
         return self.but(heap=h)
 
     def hyps(self):
-        return list(self.facts) + list(self.pc)
+        h = Hyps(list(self.facts) + list(self.pc))
+        h.nfacts = len(self.facts)
+        return h
 
 
 _ref = [0]
